@@ -664,6 +664,10 @@ def val_getattr(ev, obj, name, fr, node):
         return handle_getattr(ev, obj, name, fr, node)
     if isinstance(obj, HeaderV) and name in obj.hattrs:
         return obj.hattrs[name]
+    if isinstance(obj, PolyV):
+        if name == "domain":
+            return TupleV([Num(obj.domain[0]), Num(obj.domain[1])])
+        return BoundBuiltin(obj, name)
     if isinstance(obj, NdArr):
         if name == "shape":
             return TupleV([Num(s) for s in obj.shape])
@@ -675,6 +679,8 @@ def val_getattr(ev, obj, name, fr, node):
             return obj.map(lambda x: num_getattr(ev, x, name, fr, node))
         if name == "isscalar":
             return BoolV(False)
+        if name == "flat":
+            return NdArr((len(obj.items),), list(obj.items))
         if name == "dtype":
             return getattr(obj, "dtype", None) or ExtV("numpy.dtype:unknown")
         return BoundBuiltin(obj, name)
@@ -798,6 +804,17 @@ def call_method(ev, recv, name, args, kwargs, fr, node):
         return num_method(ev, recv, name, args, kwargs, fr, node)
     if isinstance(recv, HandleV):
         return handle_method(ev, recv, name, args, kwargs, fr, node)
+    if isinstance(recv, PolyV):
+        return poly_method(ev, recv, name, args, kwargs, fr, node)
+    if isinstance(recv, OpaqueV) and recv.what == "textfile":
+        if name == "readline":
+            st = recv.payload
+            if st["pos"] < len(st["lines"]):
+                st["pos"] += 1
+                return StrV(st["lines"][st["pos"] - 1])
+            return StrV("")
+        if name in ("close", "__enter__", "__exit__"):
+            return NONE
     if isinstance(recv, NdArr):
         return nd_method(ev, recv, name, args, kwargs, fr, node)
     if isinstance(recv, StackV):
@@ -1411,6 +1428,34 @@ def h_vectorize(ev, args, kwargs, fr, node):
     return PyFuncV(apply, "vectorized")
 
 
+def token_number(s_, integer=False):
+    """Numeric value of a text token.  Tokens written as @NAME stand for a symbolic number (used by rule modules to keep
+    file contents symbolic); '0.@NAME' is a symbolic fraction in [0, 1), '0@NAME' a symbolic non-negative integer."""
+    t = s_.strip()
+    if "@" in t:
+        head, name = t.split("@", 1)
+        if head in ("", "+"):
+            return sp.Symbol(name, real=True) if not integer else sp.Symbol(name, integer=True)
+        if head == "-":
+            return -sp.Symbol(name, real=True)
+        if head == "0.":
+            return sp.Symbol(name + "_frac", real=True, nonnegative=True)
+        if head == "0":
+            return sp.Symbol(name, integer=True, nonnegative=True)
+        raise ValueError(t)
+    if integer:
+        return sp.Integer(int(t))
+    return sp.Rational(t) if "e" not in t.lower() and "inf" not in t.lower() and "nan" not in t.lower() else sp.nsimplify(sp.Rational(*float_ratio(t)))
+
+
+def float_ratio(t):
+    import decimal
+    d = decimal.Decimal(t)          # exact decimal value of the token (not the binary float)
+    from fractions import Fraction
+    f = Fraction(d)
+    return f.numerator, f.denominator
+
+
 def h_len(ev, args, kwargs, fr, node):
     x = args[0]
     if isinstance(x, (TupleV, ListV, SetV)):
@@ -1439,7 +1484,7 @@ def h_int(ev, args, kwargs, fr, node):
         return Num(int(x.b))
     if isinstance(x, StrV):
         try:
-            return Num(int(x.s), tag="int")
+            return Num(token_number(x.s, integer=True), tag="int")
         except ValueError:
             from .symeval import Raised
             raise Raised("ValueError", node)
@@ -1456,6 +1501,19 @@ def h_int(ev, args, kwargs, fr, node):
             return Num(sp.floor(e, evaluate=False))
         return Num(mk_ite(e >= 0, sp.floor(e, evaluate=False), sp.ceiling(e, evaluate=False)))
     ev.unsupported(f"int() of {x!r}", node, fr)
+
+
+def h_float(ev, args, kwargs, fr, node):
+    x = args[0]
+    if isinstance(x, Num):
+        return x.like(x.expr, isfloat=True, unit=x.unit)
+    if isinstance(x, StrV):
+        try:
+            return Num(token_number(x.s), isfloat=True)
+        except Exception:
+            from .symeval import Raised
+            raise Raised("ValueError", node, f"could not convert string to float: {x.s!r}")
+    ev.unsupported(f"float({x!r})", node, fr)
 
 
 def h_index(ev, args, kwargs, fr, node):
@@ -1552,7 +1610,7 @@ def h_hasattr(ev, args, kwargs, fr, node):
     if isinstance(obj, ObjV) and isinstance(name, StrV):
         return BoolV(ev.has_attr(obj, name.s))
     if isinstance(name, StrV) and name.s == "readline":
-        return BoolV(isinstance(obj, OpaqueV) and obj.what == "handle")
+        return BoolV(isinstance(obj, OpaqueV) and obj.what in ("handle", "textfile"))
     ev.unsupported(f"hasattr({obj!r}, {name!r})", node, fr)
 
 
@@ -1744,10 +1802,7 @@ def h_array(ev, args, kwargs, fr, node):
                     flat += f
                 return (len(v.items),) + tuple(shp), flat
             if isinstance(v, StrV):
-                try:
-                    return (), [Num(sp.Rational(v.s))]
-                except Exception:
-                    return (), [Num(sp.nsimplify(float(v.s), rational=True))]
+                return (), [Num(token_number(v.s), isfloat=True)]
             if isinstance(v, BoolV):
                 return (), [Num(int(v.b))]
             return (), [v]
@@ -1926,6 +1981,14 @@ def h_broadcast_to(ev, args, kwargs, fr, node):
     ev.unsupported("np.broadcast_to with symbolic shapes", node, fr)
 
 
+def h_unique(ev, args, kwargs, fr, node):
+    x = args[0]
+    if isinstance(x, NdArr) and all(isinstance(e, Num) and e.expr.is_number for e in x.items):
+        vals = sorted({e.expr for e in x.items})
+        return NdArr((len(vals),), [Num(v) for v in vals])
+    ev.unsupported("np.unique of a symbolic array", node, fr)
+
+
 def h_quantity(ev, args, kwargs, fr, node, angle=False):
     """u.Quantity(value, unit=None, copy=...) / Angle(value, unit, copy=...)"""
     from .symeval import Raised
@@ -1968,6 +2031,12 @@ def h_time(ev, args, kwargs, fr, node):
     x = args[0]
     if isinstance(x, Num) and x.kind == "time":
         return x
+    fmt = kwargs.get("format")
+    if isinstance(x, StrV) and isinstance(fmt, StrV) and fmt.s == "mjd":
+        try:
+            return Num(token_number(x.s) * 86400 / UNITS["Hz"], kind="time")
+        except Exception:
+            pass
     from .symeval import Raised
     if isinstance(x, (StrV, NoneV, BoolV, DictV, ListV, TupleV)) or (isinstance(x, Num) and x.kind != "time"):
         if isinstance(x, Num) and kwargs.get("format") is not None and isinstance(kwargs["format"], StrV) \
@@ -2172,6 +2241,76 @@ def h_baseband_open(ev, args, kwargs, fr, node):
     return fm(ev, args, kwargs)
 
 
+class PolyV(Val):
+    """numpy.polynomial.Polynomial: coefficients in the mapped variable u = off + scl*x (domain -> window)."""
+    X = sp.Symbol("x_poly", real=True)
+
+    def __init__(self, coeffs, domain=(-1, 1), window=(-1, 1)):
+        self.coeffs = [sp.sympify(c) for c in coeffs]
+        self.domain = tuple(sp.sympify(d) for d in domain)
+        self.window = tuple(sp.sympify(w) for w in window)
+
+    def expr(self, x=None):
+        x = self.X if x is None else x
+        a, b = self.domain
+        w0, w1 = self.window
+        u_ = (x - a) / (b - a) * (w1 - w0) + w0
+        return sum((c * u_ ** i for i, c in enumerate(self.coeffs)), sp.Integer(0))
+
+    def converted(self):
+        e = sp.expand(self.expr())
+        poly = sp.Poly(e, self.X) if e.has(self.X) else None
+        cs = list(reversed(poly.all_coeffs())) if poly is not None else [e]
+        return PolyV(cs)
+
+    def __repr__(self):
+        return f"PolyV({self.coeffs}, domain={self.domain})"
+
+
+def h_polynomial(ev, args, kwargs, fr, node):
+    c = args[0]
+    if isinstance(c, NdArr):
+        cs = [x.expr for x in c.items]
+    elif isinstance(c, (ListV, TupleV)):
+        cs = [x.expr for x in c.items]
+    else:
+        ev.unsupported("Polynomial of symbolic-length coefficients", node, fr)
+    dom = kwargs.get("domain", args[1] if len(args) > 1 else None)
+    win = kwargs.get("window", args[2] if len(args) > 2 else None)
+    g = lambda v: tuple(x.expr for x in ev.iterate(v, fr, node)) if v is not None and not isinstance(v, NoneV) else (-1, 1)  # noqa: E731
+    return PolyV(cs, g(dom), g(win))
+
+
+def poly_method(ev, p_, name, args, kwargs, fr, node):
+    if name == "convert":
+        if args or kwargs:
+            ev.unsupported("Polynomial.convert with arguments", node, fr)
+        return p_.converted()
+    if name == "copy":
+        return PolyV(p_.coeffs, p_.domain, p_.window)
+    if name == "deriv":
+        m = ev.concrete_int(args[0]) if args else 1
+        if m is None:
+            m_expr = args[0].expr
+            return OpaqueV("poly-deriv", (p_, m_expr))
+        e = p_.expr()
+        for _ in range(m):
+            e = sp.diff(e, PolyV.X)
+        q = PolyV([e])
+        q._direct = e
+        return DerivedPoly(e)
+    ev.unsupported(f"Polynomial.{name}", node, fr)
+
+
+class DerivedPoly(PolyV):
+    def __init__(self, e):
+        super().__init__([0])
+        self._e = e
+
+    def expr(self, x=None):
+        return self._e if x is None else self._e.subs(PolyV.X, x)
+
+
 class SuperV(Val):
     def __init__(self, cls, self_val):
         self.cls, self.self_val = cls, self_val
@@ -2195,13 +2334,14 @@ EXT = {
     "builtins.any": lambda ev, a, k, fr, n: h_all(ev, a, k, fr, n, any_=True),
     "builtins.slice": h_slice, "builtins.min": _minmax(sp.Min), "builtins.max": _minmax(sp.Max),
     "builtins.abs": h_abs, "builtins.sum": h_sum, "builtins.super": h_super,
-    "builtins.float": lambda ev, a, k, fr, n: a[0].like(a[0].expr, isfloat=True, unit=a[0].unit) if isinstance(a[0], Num) else Num(sp.Rational(a[0].s), isfloat=True),
+    "builtins.float": lambda ev, a, k, fr, n: h_float(ev, a, k, fr, n),
     "builtins.bool": lambda ev, a, k, fr, n: (lambda t: BoolV(t) if t in (True, False) else CondV(t))(ev.truth(a[0], fr, n)),
     "builtins.str": lambda ev, a, k, fr, n: h_str(ev, a, k, fr, n),
     "numpy.vectorize": h_vectorize,
     "builtins.sorted": lambda ev, a, k, fr, n: ListV(sorted(ev.iterate(a[0], fr, n), key=lambda v: getattr(v, "s", str(v)))),
     "builtins.id": lambda ev, a, k, fr, n: Num(0), "builtins.hex": lambda ev, a, k, fr, n: StrV("0x0"),
     "builtins.round": h_round,
+    "builtins.str.maketrans": lambda ev, a, k, fr, n: OpaqueV("transtable", str.maketrans(*[x.s for x in a])),
     "numpy.exp": _np_unary(sp.exp), "numpy.sqrt": _np_unary(sp.sqrt), "numpy.abs": _np_unary(sp.Abs, real=True),
     "numpy.absolute": _np_unary(sp.Abs, real=True), "numpy.floor": _np_unary(_lazy(sp.floor)), "numpy.ceil": _np_unary(_lazy(sp.ceiling)),
     "math.ceil": _np_unary(_lazy(sp.ceiling)), "math.floor": _np_unary(_lazy(sp.floor)), "math.sqrt": _np_unary(sp.sqrt),
@@ -2227,12 +2367,13 @@ EXT = {
     "astropy.coordinates.Longitude": lambda ev, a, k, fr, n: h_quantity(ev, a, k, fr, n, angle=True),
     "numpy.lexsort": lambda ev, a, k, fr, n: (ev.trace.append(("lexsort", k.get("keys", a[0] if a else NONE), k.get("axis", a[1] if len(a) > 1 else NONE), n)),
                                               Num(sp.Function("Lexsort")(*[x.expr if isinstance(x, Num) else sp.Symbol("key") for x in ev.iterate(k.get("keys", a[0] if a else NONE), fr, n)])))[1],
+    "numpy.unique": lambda ev, a, k, fr, n: h_unique(ev, a, k, fr, n),
     "numpy.count_nonzero": lambda ev, a, k, fr, n: Num(sp.Function("CountNonzero")(a[0].expr)),
     "numpy.all": h_npall, "numpy.any": lambda ev, a, k, fr, n: h_npall(ev, a, k, fr, n, any_=True),
     "astropy.time.Time": h_time, "astropy.time.Time.isclose": h_isclose_time,
     "astropy.units.isclose": h_isclose_q, "astropy.units.allclose": h_isclose_q,
     "dask.delayed": h_delayed, "dask.base.tokenize": h_tokenize, "dask.tokenize": h_tokenize, "dask.array.from_delayed": h_from_delayed, "dask.array.map_blocks": h_map_blocks,
-    "contextlib.nullcontext": h_nullcontext, "baseband.open": h_baseband_open,
+    "contextlib.nullcontext": h_nullcontext, "baseband.open": h_baseband_open, "numpy.polynomial.Polynomial": h_polynomial,
     "functools.wraps": lambda ev, a, k, fr, n: OpaqueV("decorator"),
     "functools.singledispatch": lambda ev, a, k, fr, n: a[0],
 }
@@ -2296,7 +2437,7 @@ def call_ext(ev, fn: ExtV, args, kwargs, fr, node):
         x = args[0]
         nm = d.split(".")[-1]
         if isinstance(x, StrV):
-            return Num(sp.Integer(int(x.s)))
+            return Num(token_number(x.s, integer=nm.startswith(("int", "uint"))))
         if nm in ("float32", "complex64", "float16") and isinstance(x, Num) and not (x.expr.is_integer and x.expr.is_number):
             # a scalar constructor of reduced precision: the value is no longer the exact term
             ev.trace.append(("precision-cast", nm, str(x.expr)))
